@@ -1,5 +1,5 @@
 //@unit sm9_modn
-//@serves C09 C10 C13 C16 C17
+//@serves C09 C10 C13 C16 C17 C20
 //@source gm-sm9/src/fields.rs
 //@rewrite be
 //@assume shim_from_be_u64: u64::from_be_bytes is the big-endian conversion (external_body shim whose body is the replaced std call)
@@ -814,7 +814,7 @@ fn mod_n_inv(a: &U256) -> (r: U256)
 }
 
 fn mod_n_from_hash(ha: &[u8]) -> (h: U256)
-    requires ha@.len() >= 40
+    requires ha@.len() >= 40 //@carveout D41
     ensures val4(h@) == be_val(ha@.subrange(0, 40)) % (N9() - 1) + 1,
 {
     let mut h = SM9_ONE;
